@@ -195,14 +195,18 @@ pub fn run(ctx: &Ctx) -> i32 {
     let mut l = lens::dense(dense_n);
     let pool = lens::thin(&lens::pool(dense_n, t.pick(1 << 13, 1 << 14)), t.pick(24, 150));
     l.extend(pool.iter().map(|x| x.0));
-    let big: Vec<usize> = lens::beyond_u16(t == crate::framework::Tier::Thorough).iter().map(|x| x.0).filter(|&n| t == crate::framework::Tier::Thorough || n < 200_000).collect();
+    let big: Vec<usize> = lens::beyond_u16(t == crate::framework::Tier::Thorough).iter().map(|x| x.0).filter(|&n| n < t.pick(200_000, 400_000)).collect();
     l.extend(big.iter().cloned());
     l.reverse();
     let parts = par_map(&l, |_, &n| {
         let mut r = Report::new();
         let pks: &[PK] = if n > 20000 { &PK::DISTINCT } else { &PK::ALL };
+        let t0 = std::time::Instant::now();
         one_len::<f32>(n, pks, &mut r, None);
         one_len::<f64>(n, pks, &mut r, None);
+        if n > 20000 && std::env::var("VERIF_TIMING").is_ok() {
+            eprintln!("C08 n={} took {:.1}s", n, t0.elapsed().as_secs_f64());
+        }
         r
     });
     let mut rep = Report::new();
